@@ -1970,8 +1970,10 @@ def module_env(project, modname, ev=None):
                 continue
             if v[0] == "dict" or (v[0] in ("list", "op") and (v[0] == "op" or not v[1])):
                 continue   # mutable containers keep their identity (name), not a literal value
-            if all(a[0] != "sym" or a == PI for a in atoms_of(v) if a[0] == "sym") and \
-                    not any(a[0] in ("call", "lambda") for a in atoms_of(v)):
+            def _const_slice(a):
+                return a[0] == "call" and a[1] == ("sym", "slice") and not a[3] and all(x[0] == "const" or is_num(x) for x in a[2])
+            if all(a[0] != "sym" or a == PI or a == ("sym", "slice") for a in atoms_of(v) if a[0] == "sym") and \
+                    not any(a[0] in ("call", "lambda") and not _const_slice(a) for a in atoms_of(v)):
                 env[n.targets[0].id] = v
     return env
 
